@@ -376,7 +376,7 @@ PROPS = {
                       "invariant (its constructors are proved in unit headers). Not covered: interpretation of attribute values by a client "
                       "(domain matching, date parsing of Expires -- the library writes ISO 8601, which RFC 6265 clients ignore), Cookie::new's "
                       "panics on empty / non-ASCII names, one Set-Cookie field per cookie at the Response level (HeaderList::add, C14).",
-        "verus": ["cookie", "cookiereq", "request"],
+        "verus": ["cookie", "cookiereq", "request", "errresp"],
         "verus_thorough": [],
         "kani": [],
         "witness": "c15",
